@@ -31,7 +31,7 @@ def gauss_eig_section(ctx, D, rng, S, thorough):
         else:
             variants = [(v, e) for v in ("full-rank", "deficient") for e in (-34, 0, 30)]
         for v, e in variants:
-            plan.append((form, v, e, (76, 80, 84)[(i + len(plan) + ctx.seed) % 3]))
+            plan.append((form, v, e, (76, 80, 84)[(i + len(plan) + ctx.seed) % 3] if thorough else (76, 80)[(i + ctx.seed) % 2]))
     lines, meta = [], []
     for (form, variant, e, n) in plan:
         sq = form in ("sqrtcov", "sqrtprec")
@@ -100,7 +100,7 @@ def gauss_eig_section(ctx, D, rng, S, thorough):
             rank, dc, quad = int(t[1]), Fraction(t[2][2:]), dec(t[3])
             logdet_m = math.log(dc.numerator) - math.log(dc.denominator)
             mlp = -0.5 * (rank * math.log(2 * math.pi) + logdet_m) - 0.5 * quad
-            if istat != "value" or not relclose(mlp, ival, 1e-8):
+            if istat != "value" or not relclose(mlp, ival, 1e-7):       # float64 eigh-based evaluation at dim ~80
                 mism.append(f"logpdf {[istat, ival]} vs model {mlp}")
             if g is not None:
                 if int(g.rank) != rank:
